@@ -118,9 +118,11 @@ class StmtMixin:
             return
         sink = []
         want = self.current.returns if self.current is not None else None
+        if st.meta.get("inline_depth", 0):
+            want = st.meta.get("inline_want")        # inside an inlined helper: what its call site expects
         st0 = st.set_meta("want", want) if want is not None else st
         for st1, v in self.evx(s.value, st0, sink):
-            yield Outcome("return", st1, v)
+            yield Outcome("return", st1.set_meta("want", st.meta.get("want")), v)
         yield from self._flush(sink)
 
     def ex_Assert(self, s, st):
